@@ -140,6 +140,9 @@ func (e *Engine) installStubs() {
 		if !ok1 || !ok2 {
 			panic(unsupported("verifCase: bounds must be concrete"))
 		}
+		if fv, ok := e.fixedCases[name]; ok {
+			lo, hi = fv, fv
+		}
 		if _, ok := e.caseRanges[name]; !ok {
 			e.caseRanges[name] = [2]int{lo, hi}
 			e.caseOrder = append(e.caseOrder, name)
@@ -499,7 +502,10 @@ func (e *Engine) msgArray(st *State, s *SliceV, site string) (*Term, *Term) {
 		return arr, ln
 	}
 	al := s.A[0]
-	zero := ConstArr(8, BVu(0, 8))
+	// common base of all message arrays: an uninterpreted array (cvc5 rejects
+	// store chains over different constant arrays); bytes at and beyond the
+	// length are never compared on their own
+	zero := ArrVar("msg.base", 8)
 	if al.Base == nil {
 		return zero, BVu(0, 64)
 	}
